@@ -183,6 +183,25 @@ def dpg_sac_cases(chk, rng, n):
             chk.fail("C12:deterministic_policy_gradient_loss:value", "DPG loss is not -mean Q(o, pi(o))", {"case": case, "impl": float(dl)})
         exprs.append(f"(sf (M.dpg_loss float_ops {t2(qo)}))")
         recs.append(("dpg", case, float(dl)))
+        # the same loss with the critic TD3 hands to it: Q is whatever the critic module computes (the clipped double Q: min of both)
+        okd, dld = chk.impl_call("C12:deterministic_policy_gradient_loss:double-q-raised", case,
+                                 lambda: nnx.value_and_grad(lambda p_, q_: deterministic_policy_gradient_loss(q_, o, p_), argnums=0)(pol.a_net, q))
+        if okd:
+            oa_d = jnp.concatenate((o, pol.a_net(o)), axis=-1)
+            qd = np.asarray(q(oa_d), dtype=float)
+            gref = nnx.grad(lambda p_, q_: -q_(jnp.concatenate((o, p_(o)), axis=-1)).mean(), argnums=0)(pol.a_net, q)
+            gi = np.concatenate([np.asarray(x, dtype=float).reshape(-1) for x in jax.tree.leaves(nnx.state(dld[1], nnx.Param))])
+            gr = np.concatenate([np.asarray(x, dtype=float).reshape(-1) for x in jax.tree.leaves(nnx.state(gref, nnx.Param))])
+            case_d = {"N": N, "critic": "ContinuousClippedDoubleQNet", "q": qd.reshape(-1).tolist(),
+                      "q1": np.asarray(q1(oa_d), dtype=float).reshape(-1).tolist(), "q2": np.asarray(q2(oa_d), dtype=float).reshape(-1).tolist()}
+            if not close(float(dld[0]), -float(qd.mean())):
+                chk.fail("C12:deterministic_policy_gradient_loss:value", "DPG loss with a clipped double-Q critic is not -mean Q(o, pi(o)) of that critic",
+                         {"case": case_d, "impl": float(dld[0]), "documented": -float(qd.mean())})
+            elif not np.allclose(gi, gr, rtol=1e-4, atol=1e-6):
+                chk.fail("C12:deterministic_policy_gradient_loss:gradient", "the actor gradient of the DPG loss with a clipped double-Q critic is not that of -mean Q(o, pi(o))",
+                         {"case": case_d, "impl": gi.tolist(), "documented": gr.tolist()})
+            exprs.append(f"(sf (M.dpg_loss float_ops {t2(qd)}))")
+            recs.append(("dpg_double", case_d, float(dld[0])))
         # SAC actor
         alpha = float(rng.choice([0.0, 0.25, 1.0]))
         sl = sac.sac_actor_loss(pol, q, alpha, jax.random.key(0), o)
